@@ -329,6 +329,28 @@ func iteValue(c *Term, a, b Value) (Value, error) {
 			p.Idx = Ite(c, a.P.Idx, b.P.Idx)
 			return Value{T: a.T, P: &p}, nil
 		}
+		// a whole-object pointer against a plain reference (nil or a loaded pointer)
+		whole := func(v Value) (*Term, bool) {
+			if v.P != nil {
+				if v.P.Kind == PObj && v.P.Off == 0 && len(v.P.ArrIdx) == 0 && types.Identical(v.P.Root, v.P.Typ) {
+					return v.P.Ref, true
+				}
+				return nil, false
+			}
+			if len(v.L) == 1 {
+				return v.L[0], true
+			}
+			return nil, false
+		}
+		if ra, ok := whole(a); ok {
+			if rb, ok := whole(b); ok {
+				t := a.T
+				if t == nil {
+					t = b.T
+				}
+				return Value{T: t, L: []*Term{Ite(c, ra, rb)}}, nil
+			}
+		}
 		return Value{}, fmt.Errorf("cannot merge distinct engine-level pointers of type %v", a.T)
 	}
 	if a.Fn != nil || b.Fn != nil {
